@@ -306,23 +306,48 @@ def run(ctx):
         for b, t, c in f.calls():
             if c == wo:
                 sites.append((f, b, t))
-    ctx.instance(len(sites))
-    ok = len(sites) == 1 and sites[0][0].name == "lace::runtime::RunEnvironment::try_from"
-    ctx.oblig(ok, {"with_orig call sites": [short(s[0].name) for s in sites]}, "exactly one, in try_from")
+    # the route of the `.break` list from the assembled AIR into the debugger: try_from hands `air.breakpoints` to Debugger::new, which
+    # stores it in its `breakpoints` field; with_orig must be applied exactly once on that route (in either function), with the load origin
+    TF, DNEW, DBG = "lace::runtime::RunEnvironment::try_from", "lace::debugger::Debugger::new", "lace::debugger::Debugger"
+    tff, dnf = ctx.fn(TF), ctx.fn(DNEW)
+    dfields = [f_["name"] for f_ in prog.adt(DBG)["variants"][0]["fields"]]
+    ctx.need("breakpoints" in dfields, "Debugger.breakpoints field")
+    aggs = [s_ for b_, i_, s_ in dnf.assigns() if s_["r"]["k"] == "agg" and s_["r"].get("adt") == DBG]
+    ctx.need(len(aggs) == 1, "the Debugger { .. } constructor expression in Debugger::new")
+    stored = dnf.expr(aggs[0]["r"]["ops"][dfields.index("breakpoints")], 14)
+    newcalls = [(b_, t_) for b_, t_, c_ in tff.calls() if c_ == DNEW]
+    ctx.need(len(newcalls) == 1, "the Debugger::new call in try_from")
+
+    def wo_calls(e):
+        return [x for x in expr_walk(e) if x[0] == "call" and x[1] == wo]
+    params = sorted({x[1] for x in expr_walk(stored) if x[0] == "arg"})
+    handed = {i_: tff.expr(newcalls[0][1]["args"][i_ - 1], 12) for i_ in params if i_ - 1 < len(newcalls[0][1]["args"])}
+    on_route = [("Debugger::new", dnf, x) for x in wo_calls(stored)] + [("try_from", tff, x) for e_ in handed.values() for x in wo_calls(e_)]
+    ctx.instance(max(1, len(sites)))
+    ok = len(on_route) == 1 and len(sites) == 1
+    ctx.oblig(ok, {"with_orig on the route AIR -> Debugger.breakpoints": [w[0] for w in on_route], "with_orig call sites": [short(s_[0].name) for s_ in sites]}, "exactly one")
     if not ok:
-        ctx.violation("with_orig-sites=%d" % len(sites), sites[0][0].file_line() if sites else "-",
-                      "with_orig is called from %s: `.break` addresses would be shifted %d times" % ([short(s[0].name) for s in sites], len(sites)))
-    for f, b, t in sites:
-        e = f.expr(t["args"][1], 6, stop={"named"})
-        ok = expr_str(e) in ("env.state.pc",) or ("pc" in expr_str(e) and "state" in expr_str(e))
-        ctx.oblig(ok, {"with_orig argument": expr_str(e)}, "the loaded PC (= origin)")
+        ctx.violation("with_orig-sites=%d" % len(on_route), sites[0][0].file_line() if sites else "-",
+                      "with_orig is applied %d time(s) between the assembled AIR and the debugger's breakpoint list (call sites: %s): `.break` addresses would be shifted %d times"
+                      % (len(on_route), [short(s_[0].name) for s_ in sites], len(on_route)))
+    src_ok = any("air.breakpoints" in expr_str(e_, 300) or ("breakpoints" in expr_str(e_, 300) and "air" in expr_str(e_, 300)) for e_ in handed.values())
+    ctx.oblig(src_ok, {"handed to Debugger::new": [expr_str(e_, 80) for e_ in handed.values()]}, "the assembled AIR's breakpoints")
+    if not src_ok:
+        ctx.violation("with_orig-self", sp_file_line(newcalls[0][1].get("sp")), "the debugger's breakpoint list is built from `%s`, not from the AIR's breakpoints" % [expr_str(e_, 80) for e_ in handed.values()])
+    for where, f, x in on_route:
+        e = x[2][1] if len(x[2]) > 1 else ("unknown", "?")
+        es = expr_str(e, 120)
+        ok = ("pc" in es and "state" in es)
+        ctx.oblig(ok, {"with_orig argument": es, "in": where}, "the loaded PC (= origin)")
         if not ok:
-            ctx.violation("with_orig-arg", sp_file_line(t.get("sp")), "with_orig(%s): expected the origin the image was loaded at" % expr_str(e))
-        se = f.expr(t["args"][0], 6, stop={"named"})
-        ok = "air.breakpoints" in expr_str(se)
-        ctx.oblig(ok, {"with_orig receiver": expr_str(se)}, "the assembled AIR's breakpoints")
-        if not ok:
-            ctx.violation("with_orig-self", sp_file_line(t.get("sp")), "with_orig is applied to `%s`, not to the AIR's breakpoints" % expr_str(se))
+            ctx.violation("with_orig-arg", f.file_line(), "with_orig(%s): expected the origin the image was loaded at" % es)
+        if where == "Debugger::new":
+            # the state whose PC is used must be the loaded machine handed over by try_from
+            st_args = sorted({y[1] for y in expr_walk(e) if y[0] == "arg"})
+            ok = bool(st_args) and all("state" in expr_str(tff.expr(newcalls[0][1]["args"][i_ - 1], 10), 200) for i_ in st_args if i_ - 1 < len(newcalls[0][1]["args"]))
+            ctx.oblig(ok, {"origin taken from": "parameter(s) %s of Debugger::new" % st_args}, "the loaded state")
+            if not ok:
+                ctx.violation("with_orig-arg", f.file_line(), "with_orig(%s) in Debugger::new does not read the loaded state's PC" % es)
     wf = ctx.fn(wo)
     adds = []
     for b, i, s in wf.assigns():
